@@ -341,6 +341,12 @@ def gen_control(quick, seed):
         n += 1
         out.append(ps("ife:%d" % n, "if %s { } elif %s { } else { probe(3) }\nprobe(4)\nif %s { probe(1) } elif %s { } else { probe(5) }\n"
                       "if %s { } else { probe(6) }\nif %s { } elif %s { probe(7) }\nprobe(8)" % (c1, c2, c1, c2, c2, c1, c2), tag="if/elif/else with empty blocks"))
+    for c1 in ["0", "1"]:
+        out.append(ps("ife:else:%s" % c1, "if %s { probe(1) } else { }\nprobe(2)\nif %s { } else { }\nprobe(3)\nif %s { } elif 1 { probe(4) } else { }\nprobe(5)" % (c1, c1, c1),
+                      tag="if/elif/else with empty blocks"))
+    for t in ["\n\n", "# c\nprobe(1)\n# d", "probe(1);probe(2)\n;\nprobe(3)"]:    # ("" and a comment alone are syntax errors)
+        n += 1
+        out.append(ps("ife:prog:%d" % n, t, tag="empty / comment-only programs and separators"))
     out.append(ps("ife:loop", "n = 0\nfor v in [1, 2, 3, 4] {\nif v == 2 { } elif v == 3 { } else { n = n + 1 }\n}\nprobe(n)\n"
                   "for i = 0; i < 3; i = i + 1 { if i == 1 { } else { probe(i) } }", tag="if/elif/else with empty blocks"))
     for c in conds:
